@@ -225,6 +225,27 @@ def run_memory_case(case):
         dams = [["trunc", k] for k in cuts] + [["ext", s] for s in ("zero", "rnd", "self")]
         (k0, v0), steps = load_budgeted(lambda: c(1, case["pad"]), 10 ** 8)
         budget = 50 * steps + 200000
+        # the entry's companion at function level: func_code.py cut at every length (seen by a process that has not
+        # validated the function yet)
+        fpath = os.path.join(mem.store_backend.location, c.func_id, "func_code.py")
+        good_code = open(fpath, "rb").read()
+        import joblib.memory as _jm
+        for k in (range(len(good_code)) if not case.get("mmap") and case["pad"] == 0 else ()):
+            with open(fpath, "wb") as fh:
+                fh.write(good_code[:k])
+            _jm._FUNCTION_HASHES.clear()
+            n += 1
+            r, _ = load_budgeted(lambda: c(1, case["pad"]), budget)
+            h.update(("code%d:%s;" % (k, r[0])).encode())
+            if verdict is None and (r[0] != "ok" or r[1] != want):
+                verdict = {"class": "memory_call_raises" if r[0] == "exc" else "memory_returns_garbage",
+                           "detail": "func_code.py truncated to %d of %d bytes: cached call gave %s" % (k, len(good_code), r[:2]),
+                           "sig": {"what": "memory_call_raises" if r[0] == "exc" else "memory_returns_garbage", "file": "func_code.py",
+                                   "exc": r[1] if r[0] == "exc" else None}}
+            with open(fpath, "wb") as fh:
+                fh.write(good_code)
+        _jm._FUNCTION_HASHES.clear()
+        c(1, case["pad"])
         for dmg in dams:
             with open(path, "wb") as fh:
                 fh.write(damaged(good, dmg, good))
